@@ -11,6 +11,9 @@ Oracles (one failure key each)
   gradcov                      : symmetric; PSD; = reference prior d2k/dudv(q,q) - explained part; explained part PSD
   shape                        : (m,d) / (m,d,d) up to numpy squeeze (the docstring's shapes)
   batch                        : a row of a batched query = the single query
+  history                      : differential – after any short sequence of gradient / spatial_derivatives / __call__ /
+                                 set_hyperparameters calls on ONE regressor every result equals that of a fresh regressor with the
+                                 same data and the current hyper-parameters (history/<kernel>/<method>/<output>.../<history class>)
 Kernels without ``gradient_terms`` must raise NotImplementedError (accepted) or be correct.
 Tolerances: see tol_ref / fd_tolerance – c*eps*cond(G)*scale, the scale taken from the reference; the truncation
 error of the difference stencil is computed by applying the same stencil to the mpmath reference function.
@@ -369,7 +372,229 @@ def ev_selftest(case):
     return {"fails": [], "n": 0, "tags": {"reference-selftest"}, "slack": {"selftest/kernel-derivatives": w / 1e-30}}
 
 
-EVALUATORS = {"config": ev_config, "selftest": ev_selftest}
+# ------------------------------------------------------------------------------------------ call histories on ONE regressor
+# The statement is about "any fitted regressor": whatever has been asked of it before, and however its current
+# hyper-parameters were reached.  A history is a sequence of calls on one GpRegressor built with theta_0:
+#   ["G", q] gradient(Q[q])   ["S", q] spatial_derivatives(Q[q])   ["C", q] __call__(Q[q])   ["H", k] set_hyperparameters(theta_k)
+#   ["M", k] marginal_likelihood(theta_k) and marginal_likelihood_gradient(theta_k)  (must not touch the fitted state)
+# After every query the result must be the one a FRESH regressor (same data, current hyper-parameters, new kernel and mean
+# objects, nothing else ever called on it) returns for the same query; each fresh result comes from its own new regressor.
+# The fresh regressor is what ev_config compares with the derivative of the prediction and the mpmath reference.
+HOPS = {"G": "gradient", "S": "spatial_derivatives", "C": "__call__", "H": "set_hyperparameters", "M": "marginal_likelihood(+gradient)"}
+HOUT = {"G": ("mean", "covariance"), "S": ("mean-gradient", "variance-gradient"), "C": ("mean", "variance")}
+MEAN_MULT = (1.0, 0.5, -1.25)  # the mean-function parameters differ between theta_0, theta_1, theta_2 as well
+
+
+def hist_thetas(case):
+    out = []
+    for k, hp in enumerate(case["hps"]):
+        mt, kt, ls = thetas(case, hp=hp)
+        out.append(([v * MEAN_MULT[k % 3] for v in mt], kt, ls))
+    return out
+
+
+def hist_queries(X, ls):
+    pts = dict(query_points(X, ls))
+    d = X.shape[1]
+    return [
+        ("between, array(1,d)", [pts["between"]], np.array(pts["between"]).reshape(1, d)),
+        ("data-point, array(d,)", [pts["data-point"]], np.array(pts["data-point"]).reshape(d)),
+        ("[outside, between], array(2,d)", [pts["outside"], pts["between"]], np.array([pts["outside"], pts["between"]])),
+    ]
+
+
+def hist_new_gp(case, X, y, yerr, theta):
+    import inference.gp as G
+
+    ks = [getattr(G, KNAME[k])() for k in case["kernel"]]
+    k = ks[0]
+    for o in ks[1:]:
+        k = k + o
+    kw = dict(kernel=k, mean=getattr(G, MEANS[case["mean"]])())
+    if yerr is not None:
+        kw["y_err"] = yerr.copy()
+    with lib("GpRegressor"):
+        return G.GpRegressor(X.copy(), y.copy(), hyperpars=theta.copy(), **kw)
+
+
+def hist_call(gp, op, Q, TH):
+    """one call of the history on a regressor; returns a tuple of float arrays, 'NotImplementedError', or None"""
+    kd = op[0]
+    if kd == "H":
+        with lib("set_hyperparameters"):
+            gp.set_hyperparameters(TH[op[1]].copy())
+        return None
+    if kd == "M":
+        with lib("marginal_likelihood"):
+            gp.marginal_likelihood(TH[op[1]].copy())
+        with lib("marginal_likelihood_gradient"):
+            gp.marginal_likelihood_gradient(TH[op[1]].copy())
+        return None
+    arg = Q[op[1]][2].copy()
+    try:
+        if kd == "G":
+            with lib("gradient", allow=(NotImplementedError,)):
+                r = gp.gradient(arg)
+        elif kd == "S":
+            with lib("spatial_derivatives", allow=(NotImplementedError,)):
+                r = gp.spatial_derivatives(arg)
+        else:
+            with lib("__call__"):
+                r = gp(arg)
+    except NotImplementedError:
+        return "NotImplementedError"
+    return tuple(np.asarray(a, float) for a in r)
+
+
+def hist_text(ops, Q):
+    out = []
+    for op in ops:
+        out.append(f"{HOPS[op[0]]}(theta_{op[1]})" if op[0] in ("H", "M") else f"{HOPS[op[0]]}({Q[op[1]][0]})")
+    return out
+
+
+def hist_alphabet(case):
+    nq, nk = 3, len(case["hps"])
+    ops = [[kd, q] for kd in ("G", "S", "C") for q in range(nq)] + [["H", k] for k in range(nk)]
+    if case.get("distractors"):
+        ops += [["M", k] for k in range(nk)]
+    return ops
+
+
+def ev_history(case):
+    """every history that extends case['prefix'] up to case['depth'] calls (depth == len(prefix): that one history)"""
+    from mc.ref import gpref_c as R
+
+    d, n = case["d"], case["n"]
+    kname = "+".join(case["kernel"])
+    X, y, yerr = build_data(case)
+    TH3 = hist_thetas(case)
+    TH = [np.array(mt + kt) for mt, kt, _ in TH3]
+    Q = hist_queries(X, TH3[0][2])
+    refs = [R.RefGP(X.tolist(), y.tolist(), case["kernel"], kt, case["mean"], mt, None if yerr is None else yerr.tolist()) for mt, kt, _ in TH3]
+    if not all(r.ok for r in refs):
+        return {"fails": [], "n": 0, "skipped": {"history: cond(G) > 1e10 for one of the hyper-parameter vectors": 1}}
+    fails, seen, tags, slack = [], {}, set(), {}
+    nev = [0]
+    fresh, scales = {}, {}
+
+    def scale(k, q):
+        """per output and per query row, the magnitudes that scale rounding errors (from the reference, as in ev_config)"""
+        if (k, q) not in scales:
+            rows = [refs[k].predict([float(v) for v in p])["scales"] for p in Q[q][1]]
+            scales[(k, q)] = {
+                ("C", 0): np.array([S["mu"] for S in rows]),
+                ("C", 1): np.array([S["var"] for S in rows]),
+                ("G", 0): np.array([S["dmu"] for S in rows]),
+                ("G", 1): np.array([S["gcov"] for S in rows]),
+                ("S", 0): np.array([S["dmu"] for S in rows]),
+                ("S", 1): np.array([S["dvar"] for S in rows]),
+            }
+        return scales[(k, q)]
+
+    def fresh_result(k, kd, q):
+        if (k, kd, q) not in fresh:
+            gp = hist_new_gp(case, X, y, yerr, TH[k])
+            fresh[(k, kd, q)] = hist_call(gp, [kd, q], Q, TH)
+            nev[0] += 2
+        return fresh[(k, kd, q)]
+
+    def bad(key, what, ops):
+        seen[key] = seen.get(key, 0) + 1
+        if seen[key] == 1:
+            fails.append(fail(key, what, history=hist_text(ops, Q), ops=ops, hyperparameters=[t.tolist() for t in TH],
+                              reproduce=dict(case, prefix=ops, depth=len(ops))))
+
+    def compare(ops, t, cur, changed, got, audit=False):
+        kd, q = ops[t][0], ops[t][1]
+        want = fresh_result(cur, kd, q)
+        cls = "after-hyperparameter-change" if changed else "hyperparameters-never-changed"
+        where = f"after [{'; '.join(hist_text(ops[:t], Q))}] with current hyper-parameters theta_{cur}: {'(final audit) ' if audit else ''}{HOPS[kd]}({Q[q][0]})"
+        if isinstance(got, str) or isinstance(want, str):
+            if got is not want and got != want:
+                bad(f"history/{kname}/{HOPS[kd]}/support/{cls}", f"{where} gave {got if isinstance(got, str) else 'a result'}, a fresh regressor {want if isinstance(want, str) else 'a result'}", ops[: t + 1])
+                return False
+            return True
+        ok = True
+        m = len(Q[q][1])
+        for o, (g, w) in enumerate(zip(got, want)):
+            oname = HOUT[kd][o]
+            if g.shape != w.shape:
+                bad(f"history/{kname}/{HOPS[kd]}/{oname}-shape/{cls}", f"{where}: shape {g.shape}, a fresh regressor returns {w.shape}", ops[: t + 1])
+                ok = False
+                continue
+            sc = scale(cur, q)[(kd, o)]
+            if kd == "C" and o == 1:
+                g, w = g**2, w**2  # the standard deviation is compared as a variance (its rounding error scales with the variance terms)
+            try:
+                g2, w2 = g.reshape((m,) + sc.shape[1:]), w.reshape((m,) + sc.shape[1:])
+            except ValueError:
+                g2, w2, sc = g.reshape(-1), w.reshape(-1), float(sc.max())
+            tol = C_EPS * EPS * refs[cur].cond * sc
+            err = np.abs(g2 - w2)
+            r = float(np.max(err / tol)) if np.all(np.asarray(tol) > 0) else (0.0 if float(err.max()) == 0 else float("inf"))
+            r = r if r == r else float("inf")
+            nm = f"history/{HOPS[kd]}/{oname}-vs-fresh"
+            slack[nm] = max(slack.get(nm, 0.0), r)
+            if not r <= 1.0:
+                bad(f"history/{kname}/{HOPS[kd]}/{oname}-differs-from-fresh-regressor/{cls}",
+                    f"{where}: {oname} {g.tolist()} but a fresh regressor with theta_{cur} gives {w.tolist()} (max |diff|/tol {r:.3e})", ops[: t + 1])
+                ok = False
+        return ok
+
+    def run_history(ops):
+        gp = hist_new_gp(case, X, y, yerr, TH[0])
+        cur, changed, asked = 0, False, set()
+        nontrivial = False
+        for t, op in enumerate(ops):
+            got = hist_call(gp, op, Q, TH)
+            nev[0] += 1
+            if op[0] == "H":
+                changed = changed or op[1] != cur
+                cur = op[1]
+                continue
+            if op[0] == "M":
+                continue
+            nontrivial = nontrivial or changed or (op[1] in asked) or any(o[0] == "M" for o in ops[:t])
+            asked.add(op[1])
+            if not compare(ops, t, cur, changed, got):
+                return False
+        # final audit: the three predictions at the first query, whatever the last call was
+        for kd in ("G", "S", "C"):
+            aops = ops + [[kd, 0]]
+            got = hist_call(gp, aops[-1], Q, TH)
+            nev[0] += 1
+            if not compare(aops, len(ops), cur, changed, got, audit=True):
+                return False
+        if nontrivial or changed:
+            tags.add("history:" + ">".join(op[0] + (str(op[1]) if op[0] in "HM" else "") for op in ops))
+        return True
+
+    alphabet = hist_alphabet(case)
+    count = [0]
+
+    # breadth first, so that the first counterexample of a block is a shortest one; a failing history is not extended
+    frontier = [[list(op) for op in case["prefix"]]]
+    while frontier:
+        nxt = []
+        for ops in frontier:
+            count[0] += 1
+            if run_history(ops) and len(ops) < case["depth"]:
+                nxt += [ops + [op] for op in alphabet]
+        frontier = nxt
+    for f in fails:
+        f["occurrences_in_case"] = seen[f["key"]]
+    tags.add(f"history-config:k={kname},d={d},n={n},mean={case['mean']},noise={case['noise']},hps={'/'.join(case['hps'])}")
+    return {
+        "fails": fails[:30],
+        "n": nev[0],
+        "tags": tags,
+        "slack": slack,
+        "sample": {"case": case, "histories": count[0], "cond": [r.cond for r in refs]},
+    }
+
+
+EVALUATORS = {"config": ev_config, "selftest": ev_selftest, "history": ev_history}
 
 
 def run(ck):
@@ -401,12 +626,42 @@ def run(ck):
     for kern, d, mean in itertools.product([["RQ"], ["SE", "WN"]], [1, 2], ["C", "L"]):
         cases.append({"d": d, "n": 6, "design": seed % 3, "mean": mean, "kernel": kern, "hp": "aniso", "noise": "uniform", "xs": 1.0, "ys": 1.0, "via": "ctor", "shift": 0})
     ck.run_cases("config", cases, chunk=2)
+    # ---- call histories on one regressor: every sequence of <= depth calls, compared with fresh regressors after every call
+    H4 = ["unit", "aniso", "short", "long"]
+    depth, plen = (3, 1) if quick else (4, 2)
+    hconf = []
+    for i, (d, mean) in enumerate(itertools.product([1, 2, 3], ["C", "L", "Q"])):
+        noise = ["uniform", "mixed", "none"][(i + d + seed) % 3]
+        menu = H4 if noise != "none" else H4[:3]  # without noise the long length-scales give cond(G) > 1e10 (would be skipped)
+        hps = [menu[(seed + i + j) % len(menu)] for j in range(3)]
+        for xs, ys in ([(1.0, 1.0)] if quick else [(1.0, 1.0), (1e-3, 1e4)]):
+            hconf.append({"d": d, "n": 6 if (i + seed) % 3 else 3, "design": (seed + i) % 3, "mean": mean, "kernel": ["SE"], "noise": noise, "xs": xs, "ys": ys,
+                          "shift": seed % 4, "hps": hps, "distractors": not quick})
+    for kern, d, mean in itertools.product([["RQ"], ["SE", "WN"]], [1, 2], ["C", "L"]):
+        # kernels that decline derivative predictions: the history must decline exactly when a fresh regressor does
+        hconf.append({"d": d, "n": 6, "design": seed % 3, "mean": mean, "kernel": kern, "noise": "uniform", "xs": 1.0, "ys": 1.0, "shift": 0,
+                      "hps": [H4[(seed + j) % 3] for j in range(3)], "distractors": not quick, "depth_cap": 3})
+    hcases = []
+    for l in range(plen + 1):  # short histories first, so that the first counterexample is the shortest
+        for c in hconf:
+            dp = min(depth, c.get("depth_cap", depth))
+            for pre in itertools.product(hist_alphabet(c), repeat=l):
+                hcases.append(dict(c, prefix=[list(o) for o in pre], depth=l if l < plen else dp))
+    ck.run_cases("history", hcases, chunk=1)
     ck.rule = (
         "cartesian product d{1,2,3} x n{3,6[,10]} x design x mean{Constant,Linear,Quadratic} x hyper-parameter pattern{unit,aniso,short,long} x "
         "noise{none,uniform y_err,mixed y_err 1e-3..1} x (x,y) scale x route{constructor,set_hyperparameters}; 5 query points each (data point, between, "
         "centroid, outside hull, far), single (3 input forms) and batched (m=5, m=2; 2 input forms). A tag is one (kernel,d,n,mean,noise,pattern,query class) "
-        "actually compared against both oracles, or a batched layout, or a kernel that declines with NotImplementedError."
+        "actually compared against both oracles, or a batched layout, or a kernel that declines with NotImplementedError. Call histories: for "
+        "d{1,2,3} x mean{C,L,Q} (+ the declining kernels) every sequence of <= depth calls (quick 3, thorough 4) on ONE regressor over {gradient(q), "
+        "spatial_derivatives(q), __call__(q) for 3 queries (single (1,d), single (d,), batch of 2 sharing a point), set_hyperparameters(theta_k) for 3 "
+        "hyper-parameter vectors incl. different mean parameters [, marginal_likelihood(+gradient)(theta_k) in thorough]}; after every query, and for "
+        "all three predictions after the last call, the result must equal that of a fresh regressor (same data, current hyper-parameters) within "
+        "64*eps*cond*scale (observed: bit-identical). A history is counted by its call sequence if a query follows a hyper-parameter change, a repeated "
+        "query or a likelihood evaluation."
     )
     ck.assume("continuous inputs are represented by the listed finite lattice (d<=3, n<=10, scales 1e-3..1e3 in x, 1e-2..1e4 in y); data covariances with cond > 1e10 are skipped and counted")
     ck.assume("the library's relative 1e-12 diagonal regularisation of the data covariance is allowed for in the reference tolerance (2e-12*cond*scale); the Richardson oracle on the real __call__ is unaffected by it")
+    ck.assume("call histories: the caller never mutates an array after passing it (copies are passed); histories are bounded by the stated depth, three "
+              "hyper-parameter vectors and three queries per configuration; the fresh regressor each result is compared with is the object ev_config validates")
     ck.assume("only SquaredExponential implements gradient_terms; RationalQuadratic and composite kernels decline with NotImplementedError, which the statement permits")
